@@ -32,6 +32,11 @@ GROUPS = {
     "Constants": ("_constants.py", ["*"]),
     # every logging call of the checker (they are dropped from the other groups): in debug mode they run, and must not change a verdict
     "LogCalls": ("<logger calls>", ["_dltype_context.py", "_core.py", "_parser.py", "_tensor_type_base.py"]),
+    # the object protocol of every class of the checker: its bases, class decorators, the special methods (`__eq__`, `__hash__`, `__bool__`,
+    # `__len__`, `__getattr__`, `__slots__`, ...) and the names assigned in the class body.  A special method added to a class changes how
+    # Python itself treats its instances (what a cache or a dict keyed by them tells apart, what `if x:` means) without touching any function
+    # that is modelled; ordinary helper methods are NOT listed, adding one breaks nothing
+    "Surface": ("<class surface>", ["_core.py", "_dltype_context.py", "_tensor_type_base.py", "_parser.py", "_errors.py", "_symbolic_expressions.py", "_log_utils.py"]),
 }
 # inner functions that translate_core.py compiles (their statements are not part of the snapshot of the enclosing function)
 COMPILED_INNER = {"dltyped": ["wrapper"], "dltyped_namedtuple": ["validated_new"], "dltyped_dataclass": ["new_init"],
@@ -106,6 +111,23 @@ def statements(lib_dir: str, group: str) -> list[tuple[str, list[str]]]:
                 mod = ast.parse(fh.read(), filename=f)
             calls = [ast.unparse(n) for n in ast.walk(mod) if isinstance(n, ast.Call) and ast.unparse(n.func).startswith("_logger.")]
             out.append((f, calls))
+        return out
+    if fname == "<class surface>":
+        out = []
+        for f in names:
+            with open(os.path.join(lib_dir, f)) as fh:
+                mod = ast.parse(fh.read(), filename=f)
+            for c in [n for n in ast.walk(mod) if isinstance(n, ast.ClassDef)]:
+                items = []
+                for m in c.body:
+                    if isinstance(m, (ast.FunctionDef, ast.AsyncFunctionDef)) and m.name.startswith("__") and m.name.endswith("__"):
+                        items.append("def " + m.name + "".join(" @" + ast.unparse(d) for d in m.decorator_list))
+                    elif isinstance(m, ast.Assign):
+                        items += ["= " + ast.unparse(t) for t in m.targets]
+                    elif isinstance(m, ast.AnnAssign) and m.value is not None:
+                        items.append("= " + ast.unparse(m.target))
+                head = f"{f}: class {c.name}({', '.join(ast.unparse(b) for b in c.bases)})" + "".join(" @" + ast.unparse(d) for d in c.decorator_list)
+                out.append((head, sorted(items)))
         return out
     with open(os.path.join(lib_dir, fname)) as fh:
         mod = ast.parse(fh.read(), filename=fname)
